@@ -1386,10 +1386,10 @@ func TestVerif_C12(t *testing.T) {
 	phased := []sc{
 		// one worker created, used, retired; then Concurrency+1 arrivals
 		{c12sp{conc: 1, maxip: 0, gate: true, idle: c12gapLong, clients: ph(cl(1, c12close), cl(1, c12close, 1, c12close))}, 0, 0},
-		{c12sp{conc: 1, maxip: 0, gate: true, idle: c12gapLong, clients: ph(cl(1, c12close), cl(1, c12close, 1, c12close))}, 1, 1},
 		{c12sp{conc: 1, maxip: 1, gate: true, idle: c12gapLong, clients: ph(cl(1, c12hijack), cl(1, c12close, 2, c12close))}, 0, 1},
-		// a busy worker spans the gap while the other one is retired
-		{c12sp{conc: 2, maxip: 0, gate: true, idle: c12gapLong, clients: ph(cl(1, c12close, 1, c12span), cl(1, c12close, 1, c12close))}, 0, 1},
+		// (a busy worker spanning the gap while the other one is retired - mode span - costs > 2 x 10^6 executions at bound 0
+		// with real client threads and > 3 x 10^6 at bound 1 for the first shape: those histories are enumerated by the
+		// scripted-listener scenarios below, e.g. "aafl" with Concurrency 2)
 		// the cleaner runs but nobody is old enough to go
 		{c12sp{conc: 1, maxip: 0, gate: true, idle: c12gapShort, clients: ph(cl(1, c12close), cl(1, c12close, 1, c12close))}, 0, 1},
 		// free-running burst after an aborted warm-up connection
@@ -1473,16 +1473,19 @@ func TestVerif_C12(t *testing.T) {
 		{2, 0, "aflg", 4, 1, 1},
 		{2, 0, "aefl", 5, 0, 1},
 		{2, 2, "ahfl", 5, 0, 1},
-		{2, 1, "abfl", 4, 1, 1},
+		{2, 1, "abfl", 3, 1, 1},
 	}
+	first := map[string]bool{}
 	for _, h := range hists {
 		if h.tier == 1 && !thorough || os.Getenv("C12_HIST") != "" {
 			continue
 		}
 		// one scenario per first operation (they run in parallel); the remaining length-1 operations are free choices
-		for _, first := range h.alphabet {
-			add(fmt.Sprintf("history/conc%d/maxip%d/%c+%dx[%s]/b%d", h.conc, h.maxip, first, h.length-1, h.alphabet, h.bound), h.bound, 8000,
-				c12history(c12hp{conc: h.conc, maxip: h.maxip, prefix: string(first), free: h.length - 1, alphabet: h.alphabet}), c12historyCheck)
+		for _, op := range h.alphabet {
+			name := fmt.Sprintf("history/conc%d/maxip%d/%c+%dx[%s]/b%d", h.conc, h.maxip, op, h.length-1, h.alphabet, h.bound)
+			first[name] = h.tier == 0
+			add(name, h.bound, 8000,
+				c12history(c12hp{conc: h.conc, maxip: h.maxip, prefix: string(op), free: h.length - 1, alphabet: h.alphabet}), c12historyCheck)
 		}
 	}
 	if hs := os.Getenv("C12_HIST"); hs != "" { // sizing aid: conc,maxip,prefix,free,alphabet,bound;...
@@ -1498,9 +1501,8 @@ func TestVerif_C12(t *testing.T) {
 	}
 	r.Set("kernel_preemption_bound", fmt.Sprint(kb))
 	// scenarios are dealt round-robin to the worker processes, each of which has its own time cap: the many small history
-	// scenarios go first so that an overloaded machine cuts into the tail of one big scenario rather than skipping them
-	sort.SliceStable(scs, func(i, j int) bool {
-		return strings.HasPrefix(scs[i].Name, "history/") && !strings.HasPrefix(scs[j].Name, "history/")
-	})
+	// scenarios of the quick tier go first so that an overloaded machine cuts into the tail of one big scenario rather
+	// than skipping them (the thorough-only histories stay at the end of the list)
+	sort.SliceStable(scs, func(i, j int) bool { return first[scs[i].Name] && !first[scs[j].Name] })
 	mcx.Run(r, scs)
 }
